@@ -33,15 +33,16 @@ Theorem C14_ctor_decides : forall O, is_space O 32%N = true ->
 Proof. exact ctor_decides. Qed.
 Print Assumptions C14_ctor_decides.
 
-(* what acceptance buys: in an accepted table none of whose names holds an operator word or a parenthesis, no two names of
-   different licenses (nor a license and an operator) are stored under the same lower-cased words - every name has one owner *)
+(* what acceptance buys: in an accepted table - whatever its names hold, operator words and parentheses included - no two names
+   of different licenses (nor a license and an operator) are stored under the same lower-cased words: every name has one owner.
+   (Before the repair of D11 this needed "no parenthesis in a name" and was false without it.) *)
 Require Import Model.Split.
 Theorem C14_accepted_names_have_one_owner : forall O, is_space O 32%N = true ->
   (forall c, is_space O c = true -> lower_ch O c = [c]) ->
   (forall c, is_space O c = false -> lower_ch O c <> [] /\ nospace O (lower_ch O c)) ->
   (forall c, In c [97; 110; 100; 111; 114; 119; 105; 116; 104; 40; 41]%N -> is_space O c = false /\ lower_ch O c = [c]) ->
+  (is_wordch O 40%N = false /\ is_wordch O 41%N = false) ->
   forall T : list entry,
-  (forall n v, In (n, v) (flat_map (entry_adds O) T) -> forall w, In w (lwords O n) -> is_keyword_str w = false) ->
   (forall e, In e T -> mk_key O (ekey e) = Ok (ekey e)) ->
   validate_symbols_err O T = false ->
   forall n1 v1 n2 v2,
